@@ -167,7 +167,8 @@ def o_fieldcov_copy(prog, res, f):
         loop = paths.innermost_loop(f, b.id)
         if a0 == "acquisition_dimensions.data" and a1 == "acquisition_dimensions.data" and loop:
             # loop bound reads src->acquisition_dimensions.size
-            conds = [f.blocks[x].cond_node() for x in loop if f.blocks[x].cond_node() is not None]
+            from .. import congr
+            conds = [congr.inline_expr(prog, f, f.blocks[x].cond_node()) for x in loop if f.blocks[x].cond_node() is not None]
             if any(is_param_path(y, src["id"]) == "acquisition_dimensions.size" for cnd in conds for y in ir.walk(cnd) if y.get("k") == "mem"):
                 good = True
     if good:
@@ -186,8 +187,12 @@ def o_fieldcov_copy(prog, res, f):
 
         def dst_has_none(blk, succ_):
             c = ir.strip(blk.cond_node())
+            neg = False
+            while isinstance(c, dict) and c.get("k") == "un" and c.get("op") == "!":
+                neg = not neg
+                c = ir.strip(c["e"])
             return isinstance(c, dict) and c.get("k") == "mem" and is_param_path(c, dst["id"]) == "acquisition_dimensions.data" \
-                and succ_.get("label") == "false"
+                and succ_.get("label") == ("true" if neg else "false")
         ok, w = paths.all_paths_pass(f, "entry", set(init_calls), releases, edge_ok=dst_has_none)
         inst = "%s: dst's own dimension array released before a new one is allocated" % f.name
         if ok:
@@ -388,6 +393,46 @@ def copy_string_rules(prog, res):
      res.fail(R, inst, "R-COPY-STRING|grow", f.loc(), "copy_string never grows dst's buffer: a longer source overflows it"))
 
 
+def o_pair_encaps(prog, res):
+    """The (data, size) pair of the dimension array is an owned container: its
+    pointer and its element count may only be stored by the functions that
+    allocate or release the elements (and by the whole-pair save/restore of the
+    copy); a count changed elsewhere no longer matches the owned elements."""
+    R = "O-PAIR-ENCAPS"
+    owners = set()
+    for f in prog.all_funcs():
+        if not f.file.endswith("props/storage.c"):
+            continue
+        allocs = any(c.get("fn") in ("malloc", "free", "storage_dimension_array_init") for b, i, s in f.all_stmts() for c in ir.calls_in(s))
+        if allocs:
+            owners.add(f.name)
+    n = 0
+    for f in prog.all_funcs():
+        if not f.file.endswith("props/storage.c"):
+            continue
+        for b, i, s in f.all_stmts():
+            for lv, op, rhs, w in ir.writes_of(s):
+                if lv.get("k") != "mem":
+                    continue
+                root, chain = ir.field_chain(lv)
+                flds = [x for _, x in chain]
+                if "acquisition_dimensions" not in flds:
+                    continue
+                tail = flds[flds.index("acquisition_dimensions") + 1:]
+                if tail not in (["size"], ["data"]):
+                    continue
+                n += 1
+                res.touched(f)
+                inst = "%s stores acquisition_dimensions.%s" % (f.name, tail[0])
+                if f.name in owners and f.name != "storage_properties_copy":
+                    res.oblige(R, inst, True, "inside the allocating/releasing function", f.loc(s))
+                else:
+                    res.fail(R, inst, "O-PAIR-ENCAPS|%s|%s" % (f.name, tail[0]), f.loc(s),
+                             "%s changes acquisition_dimensions.%s directly: the element count / array pointer no longer matches the elements the object owns (elements dropped this way are never released)"
+                             % (f.name, tail[0]))
+    return n
+
+
 def run(ctx, res):
     prog = ctx.program()
     res.extra["explanation"] = EXPLANATION
@@ -407,6 +452,8 @@ def run(ctx, res):
     if n < 3:
         raise AnalysisBroken("expected three free() sites in the destroy functions, found %d" % n)
     copy_string_rules(prog, res)
+    if o_pair_encaps(prog, res) < 1:
+        raise AnalysisBroken("no store to acquisition_dimensions.size/data found")
     res.require_min("O-SHALLOW", 5)
     res.require_min("O-FIELDCOV", 17)
     res.require_min("O-FREE-NULL", 3)
